@@ -158,7 +158,7 @@ def Sys.exec (dedup : Bool) (s : Sys S) (i : Nat) (a : Action S) : Option (Sys S
     | _ => none
   | .enqueue =>
     match s.ws[i]? with
-    | some (.enq n _ o) => some { crit := s.crit.enqueue dedup n.ub o.cutset, ws := s.ws.set i (.fin n false) }
+    | some (.enq n _ o) => some { crit := s.crit.enqueue dedup o.cutset, ws := s.ws.set i (.fin n false) }
     | _ => none
   | .abort top =>
     match s.ws[i]? with
